@@ -388,4 +388,86 @@ theorem fieldsLoop_eq (fuel : Nat) (post : Field → Field) : ∀ (t : T) (acc :
       | crash => simp
     · exact ihn acc
 
+/-! ### explicit field ids and enum values (ParseInt with a fallback base) -/
+
+open GoStrconv
+
+/-- `cs` spells the digits `ds` in base `base` (any mix of upper / lower case letters) -/
+def Spells (base : Nat) : List Nat → List Nat → Prop
+  | [], [] => True
+  | c :: cs, d :: ds => digitVal c = some d ∧ d < base ∧ Spells base cs ds
+  | _, _ => False
+
+def valIn (base : Nat) (ds : List Nat) : Nat := ds.foldl (fun n d => n * base + d) 0
+
+theorem foldl_ge (base : Nat) : ∀ (l : List Nat) (a : Nat), 1 ≤ base → a ≤ l.foldl (fun n d => n * base + d) a := by
+  intro l
+  induction l with
+  | nil => intro a _; simp
+  | cons x xs ih =>
+    intro a hb
+    simp only [List.foldl_cons]
+    have := ih (a * base + x) hb
+    have h2 : a ≤ a * base := Nat.le_mul_of_pos_right a hb
+    omega
+
+theorem uintLoop_spells (base maxVal : Nat) (hb : 1 ≤ base) : ∀ (cs ds : List Nat) (n : Nat), Spells base cs ds →
+    ds.foldl (fun n d => n * base + d) n ≤ maxVal →
+    uintLoop base maxVal n cs = .ok (ds.foldl (fun n d => n * base + d) n) := by
+  intro cs
+  induction cs with
+  | nil =>
+    intro ds n h _
+    cases ds with
+    | nil => simp [uintLoop]
+    | cons d r => simp [Spells] at h
+  | cons c r ih =>
+    intro ds n h hmax
+    cases ds with
+    | nil => simp [Spells] at h
+    | cons d ds' =>
+      obtain ⟨h1, h2, h3⟩ := h
+      simp only [List.foldl_cons] at hmax ⊢
+      have hle := foldl_ge base ds' (n * base + d) hb
+      have c1 : ¬ d ≥ base := by omega
+      have c2 : ¬ n * base + d > maxVal := by omega
+      simp only [uintLoop, h1, c1, c2, if_false]
+      exact ih ds' (n * base + d) h3 hmax
+
+/-- a field id spelled `0x…` (hex digits in either case) that fits int32 is read as its value -/
+theorem fieldIdOf_hex (c : Nat) (cs ds : List Nat) (h : Spells 16 (c :: cs) ds) (hv : valIn 16 ds < 2 ^ 31) :
+    fieldIdOf (48 :: 120 :: c :: cs) = some (valIn 16 ds : Int) := by
+  have hu := uintLoop_spells 16 (2 ^ 32 - 1) (by decide) (c :: cs) ds 0 h (by unfold valIn at hv; omega)
+  unfold valIn at hv ⊢
+  generalize List.foldl (fun n d => n * 16 + d) 0 ds = V at hu hv ⊢
+  have h10 : parseInt (48 :: 120 :: c :: cs) 10 32 = (0, true) := by
+    simp [parseInt, parseUint, uintLoop, digitVal, lower]
+  have hc : ¬ (V ≥ 2 ^ (32 - 1)) := by simp; omega
+  have h0 : parseInt (48 :: 120 :: c :: cs) 0 32 = ((V : Int), false) := by
+    simp [parseInt, parseUint, lower, hu, hc]
+  simp [fieldIdOf, h10, h0]
+
+/-- a field id spelled `0o…` that fits int32 is read as its value -/
+theorem fieldIdOf_octal (c : Nat) (cs ds : List Nat) (h : Spells 8 (c :: cs) ds) (hv : valIn 8 ds < 2 ^ 31) :
+    fieldIdOf (48 :: 111 :: c :: cs) = some (valIn 8 ds : Int) := by
+  have hu := uintLoop_spells 8 (2 ^ 32 - 1) (by decide) (c :: cs) ds 0 h (by unfold valIn at hv; omega)
+  unfold valIn at hv ⊢
+  generalize List.foldl (fun n d => n * 8 + d) 0 ds = V at hu hv ⊢
+  have h10 : parseInt (48 :: 111 :: c :: cs) 10 32 = (0, true) := by
+    simp [parseInt, parseUint, uintLoop, digitVal, lower]
+  have hc : ¬ (V ≥ 2 ^ (32 - 1)) := by simp; omega
+  have h0 : parseInt (48 :: 111 :: c :: cs) 0 32 = ((V : Int), false) := by
+    simp [parseInt, parseUint, lower, hu, hc]
+  simp [fieldIdOf, h10, h0]
+
+/-- decimal spellings (zero-padded ones too) are read in base 10, as before the fix -/
+theorem fieldIdOf_decimal (ds : List Nat) (hne : ds ≠ []) (hd : digitsOK ds) (h : decVal ds < 2 ^ 31) :
+    fieldIdOf (ds.map (· + 48)) = some (decVal ds : Int) := by
+  simp [fieldIdOf, parseInt_decimal ds hne hd h]
+
+theorem fieldIdOf_decimal_signed (neg : Bool) (ds : List Nat) (hne : ds ≠ []) (hd : digitsOK ds)
+    (h : if neg then decVal ds ≤ 2 ^ 31 else decVal ds < 2 ^ 31) :
+    fieldIdOf ((if neg then 45 else 43) :: ds.map (· + 48)) = some (if neg then -(decVal ds : Int) else (decVal ds : Int)) := by
+  simp [fieldIdOf, parseInt_decimal_signed neg ds hne hd h]
+
 end Walker
